@@ -376,9 +376,11 @@ def stage_store_roundtrip(report, tier, rng, dist, prop='C09'):
                 t = todo.pop()
                 for sub in [x for f in dataclasses.fields(t) for x in find_tasks_in_param(getattr(t, f.name))]:
                     everything.append(sub)
+                    # (every object is explored, also one that is == to a task met before: what is nested inside it may be spelt
+                    # differently, and which of the spellings the coordinator ran and stored is its business)
+                    todo.append(sub)
                     if not any(sub == u for u, _ in uniq):
                         uniq.append((sub, ['nested-in', V.g_value_py(t)[:200]]))
-                        todo.append(sub)
             # Python's == conflates False / 0 / 0.0 (and 1 / 1.0 / True): two tasks of one batch that are == but not
             # structurally identical are one task for the coordinator (whichever it met first is the one that was run and
             # stored), so such tasks are left out of the comparison
